@@ -7,6 +7,7 @@
 #include <utility>
 
 extern "C" int XML_Parse(void* parser, const char* s, int len, int isFinal);
+extern "C" void XML_SetCharacterDataHandler(void* parser, void (*handler)(void*, const char*, int));
 
 namespace osmium { namespace io {
 
@@ -104,6 +105,9 @@ void bad_lines(T& worker) {
         if (input.size() > 10) {
             rest.clear();
         }
+        if (input.size() > 100) {
+            break;  // E3: piece loop left although input is not done
+        }
     }
 }
 template void bad_lines<LineParser>(LineParser&);
@@ -135,6 +139,24 @@ public:
             const std::string data{get_input()};
             feed_never_final(data, input_done());
         }
+    }
+};
+
+// M1 (XML text accumulator assigned instead of appended in the character-data callback)
+class BadText : public Parser {
+    std::string m_text;
+
+    void characters(const char* text, int len) {
+        m_text.assign(text, static_cast<std::size_t>(len));
+    }
+
+    static void character_data(void* data, const char* text, int len) {
+        static_cast<BadText*>(data)->characters(text, len);
+    }
+
+public:
+    void init(void* parser) {
+        XML_SetCharacterDataHandler(parser, character_data);
     }
 };
 
